@@ -84,6 +84,7 @@ def check(ctx: Ctx) -> None:
     r3(ctx)
     r4(ctx)
     r5(ctx)
+    r6(ctx)
 
 
 # ----------------------------------------------------------------------- R1
@@ -390,3 +391,47 @@ def r5(ctx: Ctx) -> None:
                    (f"allow-listed: {reason}" if reason else
                     f"handler can complete normally (error swallowed / default substituted) on the commit path; key={k}"),
                    text="")
+
+
+def r6(ctx: Ctx) -> None:
+    ctx.rule("C04.R6", "an ambiguous commit-point failure deletes nothing: on the AmbiguousCommitError route out of the commit chain "
+             "no handler / finally body reaches a storage delete", 2)
+    from ..flow import names_in as _names_in
+    for f, n, _is_write in commit_chain(ctx):
+        g = ctx.cfg(f)
+        bad: List[str] = []
+        # walk the frames outward as an AmbiguousCommitError would
+        live = True
+        for fr in reversed(n.frames):
+            if not live:
+                break
+            if fr.kind != "try":
+                continue
+            t = fr.node
+            if fr.part == "body":
+                for h in t.handlers:  # type: ignore[attr-defined]
+                    hcs = handler_classes(h)
+                    full = any(ctx.prog.exc_is_subclass("AmbiguousCommitError", hc) for hc in hcs)
+                    if not full:
+                        continue
+                    dels = [d for d in g.calls() if in_handler(d, h) and (ctx.eff.storage_op(d) == "delete_file"
+                            or any(tt.name == "_rollback" and _is_deleting(d) for tt in ctx.eff.callees(f, d)))]
+                    for d in dels:
+                        bad.append(f"{f.file}:{d.lineno} `{d.text[:60]}` in `except {','.join(hcs)}` runs on an ambiguous failure")
+                    hn = next((x for x in g.nodes if x.kind == "handler" and x.ast is h), None)
+                    if hn is not None and not handler_exits(ctx, f, hn)["raise"]:
+                        live = False
+                    break  # first matching handler wins
+            if fr.part in ("body", "handler", "else") and t.finalbody:  # type: ignore[attr-defined]
+                fin_nodes = [d for d in g.calls() if any(x.kind == "try" and x.node is t and x.part == "final" for x in d.frames)
+                             and "cleanup:exc" in "".join(sorted(g.nodes[d.id].flags)) or
+                             (any(x.kind == "try" and x.node is t and x.part == "final" for x in d.frames))]
+                for d in fin_nodes:
+                    if ctx.eff.storage_op(d) != "delete_file":
+                        continue
+                    # tolerated only if guarded by a flag that the ambiguous path cannot satisfy - not decidable here:
+                    # a delete in a finally that an AmbiguousCommitError passes through is reported
+                    bad.append(f"{f.file}:{d.lineno} `{d.text[:60]}` in a `finally` the ambiguous error passes through")
+        ctx.ob("C04.R6", f, "no delete on the ambiguous route from this commit-point call", n, not bad,
+               "when the outcome of the pointer write is unknowable no file written by the transaction (incl. the new metadata "
+               "file the pointer may already name) is deleted", witness=sorted(set(bad))[:6] or None)
